@@ -35,11 +35,15 @@ def plan(tier):
 def required(tier):
     return ["records_judged", "minus_strand_records", "phased_records", "unphased_none_records",
             "missing_from_tsv_records", "duplicate_tsv_reads", "stable_path_files", "unstable_path_files", "bgzf_input",
-            "multi_record_reads", "multi_record_reads_interleaved"]
+            "multi_record_reads", "multi_record_reads_interleaved", "records_already_phased"]
 
 
 def setup(ctx):
     pass
+
+
+def contigs_of(g):
+    return list(g.contigs)
 
 
 def rowset_in_file_order(rows, name):
@@ -64,6 +68,15 @@ def run_case(ctx, rng, index, casedir):
                 sit["multi_record_reads"] += 1
                 if j < i - 1:
                     sit["multi_record_reads_interleaved"] += 1
+    # records that already carry ps:Z / ht:Z (a GAF that was phased before and is phased again)
+    if rng.random() < 0.25:
+        for i in range(len(lines)):
+            if rng.random() < 0.5:
+                c = lines[i].split("\t")
+                old = [f"ps:Z:{rng.choice(contigs_of(g))}-{rng.randint(1, 99999)}", f"ht:Z:{rng.choice(['H1', 'H2'])}"] if rng.random() < 0.7 else ["ps:Z:none", "ht:Z:none"]
+                pos = rng.randint(12, len(c))
+                lines[i] = "\t".join(c[:pos] + old + c[pos:])
+                sit["records_already_phased"] += 1
     stable = rng.random() < 0.5
     if stable:
         lines = [rgaf.ref_to_stable(g, l) for l in lines]
@@ -150,14 +163,26 @@ def run_case(ctx, rng, index, casedir):
             if malformed:
                 viol.append({"kind": "malformed_line", "msg": f"record {nm}: malformed optional column(s) {malformed[:4]!r} in {ol[:200]!r}", "witness": dict(wit, malformed=malformed[:6])})
                 continue
-            ps = [f for f in opt if f.startswith("ps:Z:")]
-            ht = [f for f in opt if f.startswith("ht:Z:")]
-            rest = [f for f in opt if not f.startswith(("ps:Z:", "ht:Z:"))]
-            if rest != a[12:]:
-                viol.append({"kind": "optional_fields", "msg": f"record {nm}: optional fields {a[12:]} -> {rest}", "witness": wit})
-            if len(ps) != 1 or len(ht) != 1:
-                viol.append({"kind": "ps_ht_missing", "msg": f"record {nm}: ps fields {ps}, ht fields {ht}", "witness": wit})
+            # the record GAINS one ps:Z and one ht:Z field; every optional field of the input (including
+            # ps/ht fields it may already have carried) is still there, in order
+            gained = None
+            psi = [k for k, f in enumerate(opt) if f.startswith("ps:Z:")]
+            hti = [k for k, f in enumerate(opt) if f.startswith("ht:Z:")]
+            for pi in psi:
+                for hi in hti:
+                    if [f for k, f in enumerate(opt) if k not in (pi, hi)] == a[12:]:
+                        gained = (opt[pi], opt[hi])
+                        break
+                if gained:
+                    break
+            if gained is None:
+                rest = [f for f in opt if not f.startswith(("ps:Z:", "ht:Z:"))]
+                if rest != [f for f in a[12:] if not f.startswith(("ps:Z:", "ht:Z:"))]:
+                    viol.append({"kind": "optional_fields", "msg": f"record {nm}: optional fields {a[12:]} -> {opt}", "witness": wit})
+                else:
+                    viol.append({"kind": "ps_ht_missing", "msg": f"record {nm}: no gained ps:Z/ht:Z pair: input fields {a[12:]}, output fields {opt}", "witness": wit})
                 continue
+            ps, ht = [gained[0]], [gained[1]]
             allowed = {("none", "none")} if not phased_rows else set()
             for r in rowset:
                 if r[1] == "none":
